@@ -295,3 +295,6 @@ for _pid in ('C01', 'C02', 'C03', 'C04', 'C05', 'C06', 'C07', 'C08', 'C09', 'C10
          f'{_pid}.z_mask a raw (possibly partial) invert_mask is zipped with the qubits only where absence means nothing or after padding; '
          f'{_pid}.z_hash hashability of element data is decided by hash(), not by isinstance(x, Hashable)')
 more('C11', 'order coherence of repr and equality', 'C11.u a __repr__ does not sort / set-ify a field that equality compares in stored order (unless the constructor stores it canonicalised or the field is a set-valued property)')
+more('C19', 'end-anchor table of the identifier validators; static methods in the decomposition interpreter', 'C19.l every pattern qasm_output applies with .match() ends in \\Z (a `$` accepts a trailing newline: two keys, one register); C19.d follows @staticmethod helpers of the gate')
+for _pid in ('C01', 'C02', 'C03', 'C04', 'C05', 'C06', 'C07', 'C08', 'C09', 'C10', 'C11', 'C12', 'C13', 'C14', 'C16', 'C17', 'C18', 'C19', 'C20'):
+    more(_pid, 'aggregate-stride rule', f'{_pid}.z_stride one element of a collection is never sliced with a stride computed, outside the loop, from the collection as a whole')
